@@ -275,7 +275,7 @@ class GeneralizedPerspectiveCorrection(darsia.TransformationCorrection):
         fit_options: dict = {},
     ):
         # Setup transformation
-        fit_options["coordinatesystem_dst"] = coordinatesystem_dst
+        fit_options = {**fit_options, "coordinatesystem_dst": coordinatesystem_dst}
         transformation = GeneralizedPerspectiveTransformation()
         transformation.fit(
             pts_src,
